@@ -7,6 +7,7 @@ mod pc;
 mod resp;
 mod rng;
 mod sock;
+mod ws;
 
 use batch::{BatchOpts, Tier, DEFAULT_SEED};
 
@@ -87,6 +88,7 @@ fn main() {
         "C05" => go!(h1::H1Rig { prop: "C05" }),
         "C06" => go!(h1::H1Rig { prop: "C06" }),
         "C07" => go!(pc::PcRig),
+        "C14" => go!(ws::WsRig),
         "C15" => go!(mp::MpRig),
         _ => {
             eprintln!("unknown property {}", prop);
